@@ -595,6 +595,11 @@ theorem tracks_run (base : Env) (a : Act) (s : SetupSt) (h : Tracks s.old base) 
   | alias f d k v =>
     simp only [Act.run, aliasAct]
     split <;> exact h
+  | push => exact h
+  | pop =>
+    simp only [Act.run, popAct]
+    split <;> exact h
+  | drop => exact h
 
 theorem tracks_runActs (acts : List Act) (base : Env) : Tracks (runActs false acts base).old base := by
   have : ∀ (s : SetupSt), Tracks s.old base → Tracks (acts.foldl (fun s a => a.run false s) s).old base := by
